@@ -587,155 +587,221 @@ def bKaRange : Body := fun rec args =>
   variables, events, plots, instants, `quit`, `rand`, `seed`, or a body whose source changed) has
   no body: calling it is `unmodelled`. -/
 
-open Elementary in
-def implTable : List (String × Body) := [
+/-- the base an `interval_ln` / `interval_log10` / `interval_log2` passes to `interval_log` -/
+inductive LogBase where
+  | e | ten | two
+deriving DecidableEq, Repr
+
+def LogBase.num : LogBase → Num
+  | .e => .flt Elementary.eFloat
+  | .ten => .int 10
+  | .two => .int 2
+
+/-- names of the registered bodies modelled above (so that the table below is data the kernel can
+    compare: `decide` on "which body does this call reach") -/
+inductive BodyCode where
+  | lin (op : BinOp) | trueDiv | fracDiv | mod | pow
+  | cmp (name : String)
+  | const (k : Int)                         -- the (Any, Any) catch-alls of == and !=
+  | fn1 (f : Elementary.Fn) | log2args | qfn (f : Elementary.Fn)
+  | varMax | varMin
+  | choose | factorial
+  | combComb (times : Bool) | combNum (times : Bool) | numComb (times : Bool)
+  | qtyQty (name : String) (rule : QvRule) (wrap : Bool)
+  | numQty (name : String) (rule : QvRule) (wrap : Bool)
+  | qtyNum (name : String) (rule : QvRule) (wrap : Bool)
+  | arrProd | arrSum | arrMean | arrMedian | arrSize | arrMax | arrMin | inArray | range | kaRange
+  | ivNumOp (op : String) | makeInterval | ivContains | inInterval | ivPow | ident | ivFlip | ivSqrt
+  | ivLogFixed (b : LogBase) | ivLog | ivAbs | ivCmp (name : String) (shape : IvCmpShape) | ivEq (negate : Bool)
+  | ivLower | ivUpper | ivMin | ivMax | ivSize | plusMinus
+  | rev (c : BodyCode)
+deriving DecidableEq, Repr
+
+def BodyCode.run : BodyCode → Body
+  | .lin op => bNum2 (pyLin op)
+  | .trueDiv => bNum2 pyTrueDiv
+  | .fracDiv => bFracDiv
+  | .mod => bNum2 pyMod
+  | .pow => bNum2 pyPow
+  | .cmp name => bCmp name
+  | .const k => fun _ _ => .ok (.num (.int k))
+  | .fn1 f => bNum1 (Elementary.body f)
+  | .log2args => bNum2 Elementary.kaLog
+  | .qfn f => bQtyFn f
+  | .varMax => bVarMax
+  | .varMin => bVarMin
+  | .choose => bChoose
+  | .factorial => bFactorial
+  | .combComb t => bComb2 (if t then Comb.combTimesComb else Comb.combDivComb)
+  | .combNum t => bCombNum (if t then Comb.combTimesFrac else Comb.combDivFrac)
+  | .numComb t => bNumComb (if t then Comb.fracTimesComb else Comb.fracDivComb)
+  | .qtyQty n r w => bQtyQty n r w
+  | .numQty n r w => bNumQty n r w
+  | .qtyNum n r w => bQtyNum n r w
+  | .arrProd => bArrProd | .arrSum => bArrSum | .arrMean => bArrMean | .arrMedian => bArrMedian
+  | .arrSize => bArrSize | .arrMax => bArrMax | .arrMin => bArrMin | .inArray => bInArray
+  | .range => bRange | .kaRange => bKaRange
+  | .ivNumOp op => bIvNumOp op
+  | .makeInterval => bMakeInterval | .ivContains => bIvContains | .inInterval => bInInterval
+  | .ivPow => bIvPow
+  | .ident => fun _ args => match args with | [x] => .ok x | _ => bad
+  | .ivFlip => bIvFlip | .ivSqrt => bIvSqrt
+  | .ivLogFixed b => bIvLogBase b.num
+  | .ivLog => bIvLog | .ivAbs => bIvAbs
+  | .ivCmp n sh => bIvCmp n sh
+  | .ivEq neg => bIvEq neg
+  | .ivLower => bIvLower | .ivUpper => bIvUpper | .ivMin => bIvMin | .ivMax => bIvMax | .ivSize => bIvSize
+  | .plusMinus => bPlusMinus
+  | .rev c => bRev c.run
+
+def implTable : List (String × BodyCode) := [
   -- numbers: BINARY_OPS
-  ("+|(Number, Number)|_operator.add", bNum2 (pyLin .add)),
-  ("-|(Number, Number)|_operator.sub", bNum2 (pyLin .sub)),
-  ("*|(Number, Number)|_operator.mul", bNum2 (pyLin .mul)),
-  ("/|(Number, Number)|_operator.truediv", bNum2 pyTrueDiv),
-  ("/|(Integral, Integral)|ka.types.fraction_divide", bFracDiv),
-  ("%|(Number, Number)|_operator.mod", bNum2 pyMod),
-  ("^|(Number, Number)|ka.functions.strict_pow", bNum2 pyPow),
-  ("<|(Number, Number)|ka.functions.intify.<locals>.f_new[_operator.lt]", bCmp "<"),
-  ("<=|(Number, Number)|ka.functions.intify.<locals>.f_new[_operator.le]", bCmp "<="),
-  ("==|(Number, Number)|ka.functions.intify.<locals>.f_new[_operator.eq]", bCmp "=="),
-  ("!=|(Number, Number)|ka.functions.intify.<locals>.f_new[_operator.ne]", bCmp "!="),
-  (">|(Number, Number)|ka.functions.intify.<locals>.f_new[_operator.gt]", bCmp ">"),
-  (">=|(Number, Number)|ka.functions.intify.<locals>.f_new[_operator.ge]", bCmp ">="),
-  ("==|(Any, Any)|ka.functions.<lambda:register_function(lambda x, y: 0, \"==\", (Any, Any))>", fun _ _ => .ok (.num (.int 0))),
-  ("!=|(Any, Any)|ka.functions.<lambda:register_function(lambda x, y: 1, \"!=\", (Any, Any))>", fun _ _ => .ok (.num (.int 1))),
+  ("+|(Number, Number)|_operator.add", .lin .add),
+  ("-|(Number, Number)|_operator.sub", .lin .sub),
+  ("*|(Number, Number)|_operator.mul", .lin .mul),
+  ("/|(Number, Number)|_operator.truediv", .trueDiv),
+  ("/|(Integral, Integral)|ka.types.fraction_divide", .fracDiv),
+  ("%|(Number, Number)|_operator.mod", .mod),
+  ("^|(Number, Number)|ka.functions.strict_pow", .pow),
+  ("<|(Number, Number)|ka.functions.intify.<locals>.f_new[_operator.lt]", .cmp "<"),
+  ("<=|(Number, Number)|ka.functions.intify.<locals>.f_new[_operator.le]", .cmp "<="),
+  ("==|(Number, Number)|ka.functions.intify.<locals>.f_new[_operator.eq]", .cmp "=="),
+  ("!=|(Number, Number)|ka.functions.intify.<locals>.f_new[_operator.ne]", .cmp "!="),
+  (">|(Number, Number)|ka.functions.intify.<locals>.f_new[_operator.gt]", .cmp ">"),
+  (">=|(Number, Number)|ka.functions.intify.<locals>.f_new[_operator.ge]", .cmp ">="),
+  ("==|(Any, Any)|ka.functions.<lambda:register_function(lambda x, y: 0, \"==\", (Any, Any))>", .const 0),
+  ("!=|(Any, Any)|ka.functions.<lambda:register_function(lambda x, y: 1, \"!=\", (Any, Any))>", .const 1),
   -- numbers: NUMERIC_FUNCTIONS and their quantity versions
-  ("+|(Number)|_operator.pos", bNum1 (body .pos)),
-  ("-|(Number)|_operator.neg", bNum1 (body .neg)),
-  ("abs|(Number)|builtins.abs", bNum1 (body .abs)),
-  ("floor|(Number)|math.floor", bNum1 (body .floor)),
-  ("ceil|(Number)|math.ceil", bNum1 (body .ceil)),
-  ("round|(Number)|builtins.round", bNum1 (body .round)),
-  ("int|(Number)|builtins.int", bNum1 (body .toInt)),
-  ("float|(Number)|builtins.float", bNum1 (body .toFloat)),
-  ("sin|(Number)|math.sin", bNum1 (body .sin)),
-  ("cos|(Number)|math.cos", bNum1 (body .cos)),
-  ("tan|(Number)|math.tan", bNum1 (body .tan)),
-  ("sqrt|(Number)|ka.functions.ka_sqrt", bNum1 (body .sqrt)),
-  ("ln|(Number)|ka.functions.ka_ln", bNum1 (body .ln)),
-  ("log10|(Number)|ka.functions.ka_log10", bNum1 (body .log10)),
-  ("log2|(Number)|ka.functions.ka_log2", bNum1 (body .log2)),
-  ("log|(Number, Number)|ka.functions.ka_log", bNum2 kaLog),
-  ("+|(Quantity)|ka.functions.register_numeric_function.<locals>.quantity_function[_operator.pos]", bQtyFn .pos),
-  ("-|(Quantity)|ka.functions.register_numeric_function.<locals>.quantity_function[_operator.neg]", bQtyFn .neg),
-  ("abs|(Quantity)|ka.functions.register_numeric_function.<locals>.quantity_function[builtins.abs]", bQtyFn .abs),
-  ("floor|(Quantity)|ka.functions.register_numeric_function.<locals>.quantity_function[math.floor]", bQtyFn .floor),
-  ("ceil|(Quantity)|ka.functions.register_numeric_function.<locals>.quantity_function[math.ceil]", bQtyFn .ceil),
-  ("round|(Quantity)|ka.functions.register_numeric_function.<locals>.quantity_function[builtins.round]", bQtyFn .round),
-  ("int|(Quantity)|ka.functions.register_numeric_function.<locals>.quantity_function[builtins.int]", bQtyFn .toInt),
-  ("float|(Quantity)|ka.functions.register_numeric_function.<locals>.quantity_function[builtins.float]", bQtyFn .toFloat),
-  ("sin|(Quantity)|ka.functions.register_numeric_function.<locals>.quantity_function[math.sin]", bQtyFn .sin),
-  ("cos|(Quantity)|ka.functions.register_numeric_function.<locals>.quantity_function[math.cos]", bQtyFn .cos),
-  ("tan|(Quantity)|ka.functions.register_numeric_function.<locals>.quantity_function[math.tan]", bQtyFn .tan),
-  ("sqrt|(Quantity)|ka.functions.register_numeric_function.<locals>.quantity_function[ka.functions.ka_sqrt]", bQtyFn .sqrt),
-  ("ln|(Quantity)|ka.functions.register_numeric_function.<locals>.quantity_function[ka.functions.ka_ln]", bQtyFn .ln),
-  ("log10|(Quantity)|ka.functions.register_numeric_function.<locals>.quantity_function[ka.functions.ka_log10]", bQtyFn .log10),
-  ("log2|(Quantity)|ka.functions.register_numeric_function.<locals>.quantity_function[ka.functions.ka_log2]", bQtyFn .log2),
-  ("max|(*Number)|ka.functions.max_vararg", bVarMax),
-  ("min|(*Number)|ka.functions.min_vararg", bVarMin),
+  ("+|(Number)|_operator.pos", .fn1 .pos),
+  ("-|(Number)|_operator.neg", .fn1 .neg),
+  ("abs|(Number)|builtins.abs", .fn1 .abs),
+  ("floor|(Number)|math.floor", .fn1 .floor),
+  ("ceil|(Number)|math.ceil", .fn1 .ceil),
+  ("round|(Number)|builtins.round", .fn1 .round),
+  ("int|(Number)|builtins.int", .fn1 .toInt),
+  ("float|(Number)|builtins.float", .fn1 .toFloat),
+  ("sin|(Number)|math.sin", .fn1 .sin),
+  ("cos|(Number)|math.cos", .fn1 .cos),
+  ("tan|(Number)|math.tan", .fn1 .tan),
+  ("sqrt|(Number)|ka.functions.ka_sqrt", .fn1 .sqrt),
+  ("ln|(Number)|ka.functions.ka_ln", .fn1 .ln),
+  ("log10|(Number)|ka.functions.ka_log10", .fn1 .log10),
+  ("log2|(Number)|ka.functions.ka_log2", .fn1 .log2),
+  ("log|(Number, Number)|ka.functions.ka_log", .log2args),
+  ("+|(Quantity)|ka.functions.register_numeric_function.<locals>.quantity_function[_operator.pos]", .qfn .pos),
+  ("-|(Quantity)|ka.functions.register_numeric_function.<locals>.quantity_function[_operator.neg]", .qfn .neg),
+  ("abs|(Quantity)|ka.functions.register_numeric_function.<locals>.quantity_function[builtins.abs]", .qfn .abs),
+  ("floor|(Quantity)|ka.functions.register_numeric_function.<locals>.quantity_function[math.floor]", .qfn .floor),
+  ("ceil|(Quantity)|ka.functions.register_numeric_function.<locals>.quantity_function[math.ceil]", .qfn .ceil),
+  ("round|(Quantity)|ka.functions.register_numeric_function.<locals>.quantity_function[builtins.round]", .qfn .round),
+  ("int|(Quantity)|ka.functions.register_numeric_function.<locals>.quantity_function[builtins.int]", .qfn .toInt),
+  ("float|(Quantity)|ka.functions.register_numeric_function.<locals>.quantity_function[builtins.float]", .qfn .toFloat),
+  ("sin|(Quantity)|ka.functions.register_numeric_function.<locals>.quantity_function[math.sin]", .qfn .sin),
+  ("cos|(Quantity)|ka.functions.register_numeric_function.<locals>.quantity_function[math.cos]", .qfn .cos),
+  ("tan|(Quantity)|ka.functions.register_numeric_function.<locals>.quantity_function[math.tan]", .qfn .tan),
+  ("sqrt|(Quantity)|ka.functions.register_numeric_function.<locals>.quantity_function[ka.functions.ka_sqrt]", .qfn .sqrt),
+  ("ln|(Quantity)|ka.functions.register_numeric_function.<locals>.quantity_function[ka.functions.ka_ln]", .qfn .ln),
+  ("log10|(Quantity)|ka.functions.register_numeric_function.<locals>.quantity_function[ka.functions.ka_log10]", .qfn .log10),
+  ("log2|(Quantity)|ka.functions.register_numeric_function.<locals>.quantity_function[ka.functions.ka_log2]", .qfn .log2),
+  ("max|(*Number)|ka.functions.max_vararg", .varMax),
+  ("min|(*Number)|ka.functions.min_vararg", .varMin),
   -- lazy combinatorics
-  ("C|(Integral, Integral)|ka.utils.lazy_choose", bChoose),
-  ("!|(Integral)|ka.utils.lazy_factorial", bFactorial),
-  ("*|(Combinatoric, Combinatoric)|ka.functions.comb_times_comb", bComb2 Comb.combTimesComb),
-  ("/|(Combinatoric, Combinatoric)|ka.functions.comb_div_comb", bComb2 Comb.combDivComb),
-  ("*|(Combinatoric, Rational)|ka.functions.comb_times_frac", bCombNum Comb.combTimesFrac),
-  ("/|(Combinatoric, Rational)|ka.functions.comb_div_frac", bCombNum Comb.combDivFrac),
-  ("*|(Rational, Combinatoric)|ka.functions.frac_times_comb", bNumComb Comb.fracTimesComb),
-  ("/|(Rational, Combinatoric)|ka.functions.frac_div_comb", bNumComb Comb.fracDivComb),
+  ("C|(Integral, Integral)|ka.utils.lazy_choose", .choose),
+  ("!|(Integral)|ka.utils.lazy_factorial", .factorial),
+  ("*|(Combinatoric, Combinatoric)|ka.functions.comb_times_comb", .combComb true),
+  ("/|(Combinatoric, Combinatoric)|ka.functions.comb_div_comb", .combComb false),
+  ("*|(Combinatoric, Rational)|ka.functions.comb_times_frac", .combNum true),
+  ("/|(Combinatoric, Rational)|ka.functions.comb_div_frac", .combNum false),
+  ("*|(Rational, Combinatoric)|ka.functions.frac_times_comb", .numComb true),
+  ("/|(Rational, Combinatoric)|ka.functions.frac_div_comb", .numComb false),
   -- quantities: register_quantities_op
-  ("+|(Quantity, Quantity)|ka.functions.register_quantities_op.<locals>.f['+',None,True]", bQtyQty "+" .same true),
-  ("+|(Number, Quantity)|ka.functions.register_quantities_op.<locals>.left_is_number[ka.functions.register_quantities_op.<locals>.f['+',None,True]]", bNumQty "+" .same true),
-  ("+|(Quantity, Number)|ka.functions.register_quantities_op.<locals>.right_is_number[ka.functions.register_quantities_op.<locals>.f['+',None,True]]", bQtyNum "+" .same true),
-  ("-|(Quantity, Quantity)|ka.functions.register_quantities_op.<locals>.f['-',None,True]", bQtyQty "-" .same true),
-  ("-|(Number, Quantity)|ka.functions.register_quantities_op.<locals>.left_is_number[ka.functions.register_quantities_op.<locals>.f['-',None,True]]", bNumQty "-" .same true),
-  ("-|(Quantity, Number)|ka.functions.register_quantities_op.<locals>.right_is_number[ka.functions.register_quantities_op.<locals>.f['-',None,True]]", bQtyNum "-" .same true),
-  ("*|(Quantity, Quantity)|ka.functions.register_quantities_op.<locals>.f['*',ka.functions.<lambda:register_quantities_op(\"*\", lambda qv1, qv2: qv1*qv2)>,True]", bQtyQty "*" .mul true),
-  ("*|(Number, Quantity)|ka.functions.register_quantities_op.<locals>.left_is_number[ka.functions.register_quantities_op.<locals>.f['*',ka.functions.<lambda:register_quantities_op(\"*\", lambda qv1, qv2: qv1*qv2)>,True]]", bNumQty "*" .mul true),
-  ("*|(Quantity, Number)|ka.functions.register_quantities_op.<locals>.right_is_number[ka.functions.register_quantities_op.<locals>.f['*',ka.functions.<lambda:register_quantities_op(\"*\", lambda qv1, qv2: qv1*qv2)>,True]]", bQtyNum "*" .mul true),
-  ("/|(Quantity, Quantity)|ka.functions.register_quantities_op.<locals>.f['/',ka.functions.<lambda:register_quantities_op(\"/\", lambda qv1, qv2: qv1/qv2)>,True]", bQtyQty "/" .div true),
-  ("/|(Number, Quantity)|ka.functions.register_quantities_op.<locals>.left_is_number[ka.functions.register_quantities_op.<locals>.f['/',ka.functions.<lambda:register_quantities_op(\"/\", lambda qv1, qv2: qv1/qv2)>,True]]", bNumQty "/" .div true),
-  ("/|(Quantity, Number)|ka.functions.register_quantities_op.<locals>.right_is_number[ka.functions.register_quantities_op.<locals>.f['/',ka.functions.<lambda:register_quantities_op(\"/\", lambda qv1, qv2: qv1/qv2)>,True]]", bQtyNum "/" .div true),
-  ("<|(Quantity, Quantity)|ka.functions.register_quantities_op.<locals>.f['<',None,False]", bQtyQty "<" .same false),
-  ("<|(Number, Quantity)|ka.functions.register_quantities_op.<locals>.left_is_number[ka.functions.register_quantities_op.<locals>.f['<',None,False]]", bNumQty "<" .same false),
-  ("<|(Quantity, Number)|ka.functions.register_quantities_op.<locals>.right_is_number[ka.functions.register_quantities_op.<locals>.f['<',None,False]]", bQtyNum "<" .same false),
-  ("<=|(Quantity, Quantity)|ka.functions.register_quantities_op.<locals>.f['<=',None,False]", bQtyQty "<=" .same false),
-  ("<=|(Number, Quantity)|ka.functions.register_quantities_op.<locals>.left_is_number[ka.functions.register_quantities_op.<locals>.f['<=',None,False]]", bNumQty "<=" .same false),
-  ("<=|(Quantity, Number)|ka.functions.register_quantities_op.<locals>.right_is_number[ka.functions.register_quantities_op.<locals>.f['<=',None,False]]", bQtyNum "<=" .same false),
-  ("==|(Quantity, Quantity)|ka.functions.register_quantities_op.<locals>.f['==',None,False]", bQtyQty "==" .same false),
-  ("==|(Number, Quantity)|ka.functions.register_quantities_op.<locals>.left_is_number[ka.functions.register_quantities_op.<locals>.f['==',None,False]]", bNumQty "==" .same false),
-  ("==|(Quantity, Number)|ka.functions.register_quantities_op.<locals>.right_is_number[ka.functions.register_quantities_op.<locals>.f['==',None,False]]", bQtyNum "==" .same false),
-  ("!=|(Quantity, Quantity)|ka.functions.register_quantities_op.<locals>.f['!=',None,False]", bQtyQty "!=" .same false),
-  ("!=|(Number, Quantity)|ka.functions.register_quantities_op.<locals>.left_is_number[ka.functions.register_quantities_op.<locals>.f['!=',None,False]]", bNumQty "!=" .same false),
-  ("!=|(Quantity, Number)|ka.functions.register_quantities_op.<locals>.right_is_number[ka.functions.register_quantities_op.<locals>.f['!=',None,False]]", bQtyNum "!=" .same false),
-  (">|(Quantity, Quantity)|ka.functions.register_quantities_op.<locals>.f['>',None,False]", bQtyQty ">" .same false),
-  (">|(Number, Quantity)|ka.functions.register_quantities_op.<locals>.left_is_number[ka.functions.register_quantities_op.<locals>.f['>',None,False]]", bNumQty ">" .same false),
-  (">|(Quantity, Number)|ka.functions.register_quantities_op.<locals>.right_is_number[ka.functions.register_quantities_op.<locals>.f['>',None,False]]", bQtyNum ">" .same false),
-  (">=|(Quantity, Quantity)|ka.functions.register_quantities_op.<locals>.f['>=',None,False]", bQtyQty ">=" .same false),
-  (">=|(Number, Quantity)|ka.functions.register_quantities_op.<locals>.left_is_number[ka.functions.register_quantities_op.<locals>.f['>=',None,False]]", bNumQty ">=" .same false),
-  (">=|(Quantity, Number)|ka.functions.register_quantities_op.<locals>.right_is_number[ka.functions.register_quantities_op.<locals>.f['>=',None,False]]", bQtyNum ">=" .same false),
+  ("+|(Quantity, Quantity)|ka.functions.register_quantities_op.<locals>.f['+',None,True]", .qtyQty "+" .same true),
+  ("+|(Number, Quantity)|ka.functions.register_quantities_op.<locals>.left_is_number[ka.functions.register_quantities_op.<locals>.f['+',None,True]]", .numQty "+" .same true),
+  ("+|(Quantity, Number)|ka.functions.register_quantities_op.<locals>.right_is_number[ka.functions.register_quantities_op.<locals>.f['+',None,True]]", .qtyNum "+" .same true),
+  ("-|(Quantity, Quantity)|ka.functions.register_quantities_op.<locals>.f['-',None,True]", .qtyQty "-" .same true),
+  ("-|(Number, Quantity)|ka.functions.register_quantities_op.<locals>.left_is_number[ka.functions.register_quantities_op.<locals>.f['-',None,True]]", .numQty "-" .same true),
+  ("-|(Quantity, Number)|ka.functions.register_quantities_op.<locals>.right_is_number[ka.functions.register_quantities_op.<locals>.f['-',None,True]]", .qtyNum "-" .same true),
+  ("*|(Quantity, Quantity)|ka.functions.register_quantities_op.<locals>.f['*',ka.functions.<lambda:register_quantities_op(\"*\", lambda qv1, qv2: qv1*qv2)>,True]", .qtyQty "*" .mul true),
+  ("*|(Number, Quantity)|ka.functions.register_quantities_op.<locals>.left_is_number[ka.functions.register_quantities_op.<locals>.f['*',ka.functions.<lambda:register_quantities_op(\"*\", lambda qv1, qv2: qv1*qv2)>,True]]", .numQty "*" .mul true),
+  ("*|(Quantity, Number)|ka.functions.register_quantities_op.<locals>.right_is_number[ka.functions.register_quantities_op.<locals>.f['*',ka.functions.<lambda:register_quantities_op(\"*\", lambda qv1, qv2: qv1*qv2)>,True]]", .qtyNum "*" .mul true),
+  ("/|(Quantity, Quantity)|ka.functions.register_quantities_op.<locals>.f['/',ka.functions.<lambda:register_quantities_op(\"/\", lambda qv1, qv2: qv1/qv2)>,True]", .qtyQty "/" .div true),
+  ("/|(Number, Quantity)|ka.functions.register_quantities_op.<locals>.left_is_number[ka.functions.register_quantities_op.<locals>.f['/',ka.functions.<lambda:register_quantities_op(\"/\", lambda qv1, qv2: qv1/qv2)>,True]]", .numQty "/" .div true),
+  ("/|(Quantity, Number)|ka.functions.register_quantities_op.<locals>.right_is_number[ka.functions.register_quantities_op.<locals>.f['/',ka.functions.<lambda:register_quantities_op(\"/\", lambda qv1, qv2: qv1/qv2)>,True]]", .qtyNum "/" .div true),
+  ("<|(Quantity, Quantity)|ka.functions.register_quantities_op.<locals>.f['<',None,False]", .qtyQty "<" .same false),
+  ("<|(Number, Quantity)|ka.functions.register_quantities_op.<locals>.left_is_number[ka.functions.register_quantities_op.<locals>.f['<',None,False]]", .numQty "<" .same false),
+  ("<|(Quantity, Number)|ka.functions.register_quantities_op.<locals>.right_is_number[ka.functions.register_quantities_op.<locals>.f['<',None,False]]", .qtyNum "<" .same false),
+  ("<=|(Quantity, Quantity)|ka.functions.register_quantities_op.<locals>.f['<=',None,False]", .qtyQty "<=" .same false),
+  ("<=|(Number, Quantity)|ka.functions.register_quantities_op.<locals>.left_is_number[ka.functions.register_quantities_op.<locals>.f['<=',None,False]]", .numQty "<=" .same false),
+  ("<=|(Quantity, Number)|ka.functions.register_quantities_op.<locals>.right_is_number[ka.functions.register_quantities_op.<locals>.f['<=',None,False]]", .qtyNum "<=" .same false),
+  ("==|(Quantity, Quantity)|ka.functions.register_quantities_op.<locals>.f['==',None,False]", .qtyQty "==" .same false),
+  ("==|(Number, Quantity)|ka.functions.register_quantities_op.<locals>.left_is_number[ka.functions.register_quantities_op.<locals>.f['==',None,False]]", .numQty "==" .same false),
+  ("==|(Quantity, Number)|ka.functions.register_quantities_op.<locals>.right_is_number[ka.functions.register_quantities_op.<locals>.f['==',None,False]]", .qtyNum "==" .same false),
+  ("!=|(Quantity, Quantity)|ka.functions.register_quantities_op.<locals>.f['!=',None,False]", .qtyQty "!=" .same false),
+  ("!=|(Number, Quantity)|ka.functions.register_quantities_op.<locals>.left_is_number[ka.functions.register_quantities_op.<locals>.f['!=',None,False]]", .numQty "!=" .same false),
+  ("!=|(Quantity, Number)|ka.functions.register_quantities_op.<locals>.right_is_number[ka.functions.register_quantities_op.<locals>.f['!=',None,False]]", .qtyNum "!=" .same false),
+  (">|(Quantity, Quantity)|ka.functions.register_quantities_op.<locals>.f['>',None,False]", .qtyQty ">" .same false),
+  (">|(Number, Quantity)|ka.functions.register_quantities_op.<locals>.left_is_number[ka.functions.register_quantities_op.<locals>.f['>',None,False]]", .numQty ">" .same false),
+  (">|(Quantity, Number)|ka.functions.register_quantities_op.<locals>.right_is_number[ka.functions.register_quantities_op.<locals>.f['>',None,False]]", .qtyNum ">" .same false),
+  (">=|(Quantity, Quantity)|ka.functions.register_quantities_op.<locals>.f['>=',None,False]", .qtyQty ">=" .same false),
+  (">=|(Number, Quantity)|ka.functions.register_quantities_op.<locals>.left_is_number[ka.functions.register_quantities_op.<locals>.f['>=',None,False]]", .numQty ">=" .same false),
+  (">=|(Quantity, Number)|ka.functions.register_quantities_op.<locals>.right_is_number[ka.functions.register_quantities_op.<locals>.f['>=',None,False]]", .qtyNum ">=" .same false),
   -- arrays
-  ("prod|(Array)|ka.functions.array_prod", bArrProd),
-  ("sum|(Array)|ka.functions.array_sum", bArrSum),
-  ("mean|(Array)|ka.functions.array_mean", bArrMean),
-  ("median|(Array)|ka.functions.array_median", bArrMedian),
-  ("size|(Array)|ka.functions.array_size", bArrSize),
-  ("max|(Array)|ka.functions.array_max", bArrMax),
-  ("min|(Array)|ka.functions.array_min", bArrMin),
-  ("in|(Any, Array)|ka.functions.in_array", bInArray),
-  ("range|(Integral, Integral)|ka.functions.<lambda:register_function(lambda lo, hi: Array(list(range(lo, hi+1))), \"range\", (Integral, Integral), \"Returns an array of the i>", bRange),
-  ("range|(Number, Number, Number)|ka.functions.ka_range", bKaRange),
+  ("prod|(Array)|ka.functions.array_prod", .arrProd),
+  ("sum|(Array)|ka.functions.array_sum", .arrSum),
+  ("mean|(Array)|ka.functions.array_mean", .arrMean),
+  ("median|(Array)|ka.functions.array_median", .arrMedian),
+  ("size|(Array)|ka.functions.array_size", .arrSize),
+  ("max|(Array)|ka.functions.array_max", .arrMax),
+  ("min|(Array)|ka.functions.array_min", .arrMin),
+  ("in|(Any, Array)|ka.functions.in_array", .inArray),
+  ("range|(Integral, Integral)|ka.functions.<lambda:register_function(lambda lo, hi: Array(list(range(lo, hi+1))), \"range\", (Integral, Integral), \"Returns an array of the i>", .range),
+  ("range|(Number, Number, Number)|ka.functions.ka_range", .kaRange),
   -- intervals
-  ("+|(Interval, Number)|ka.functions.make_interval_with_num_op.<locals>.op['+']", bIvNumOp "+"),
-  ("+|(Number, Interval)|ka.functions.register_commutative_op.<locals>.reverse_f[ka.functions.make_interval_with_num_op.<locals>.op['+']]", bRev (bIvNumOp "+")),
-  ("*|(Interval, Number)|ka.functions.make_interval_with_num_op.<locals>.op['*']", bIvNumOp "*"),
-  ("*|(Number, Interval)|ka.functions.register_commutative_op.<locals>.reverse_f[ka.functions.make_interval_with_num_op.<locals>.op['*']]", bRev (bIvNumOp "*")),
-  ("-|(Interval, Number)|ka.functions.make_interval_with_num_op.<locals>.op['-']", bIvNumOp "-"),
-  ("/|(Interval, Number)|ka.functions.make_interval_with_num_op.<locals>.op['/']", bIvNumOp "/"),
-  ("interval|(Number, Number)|ka.functions.make_interval", bMakeInterval),
-  ("contains|(Interval, Number)|ka.functions.interval_contains", bIvContains),
-  ("in|(Number, Interval)|ka.functions.in_interval", bInInterval),
-  ("^|(Interval, Number)|ka.functions.interval_to_power", bIvPow),
-  ("+|(Interval)|ka.functions.<lambda:register_function(lambda x: x, \"+\", (Interval,))>", fun _ args => match args with | [x] => .ok x | _ => bad),
-  ("-|(Interval)|ka.functions.interval_flip", bIvFlip),
-  ("sqrt|(Interval)|ka.functions.interval_sqrt", bIvSqrt),
-  ("ln|(Interval)|ka.functions.interval_ln", bIvLogBase (.flt eFloat)),
-  ("log10|(Interval)|ka.functions.interval_log10", bIvLogBase (.int 10)),
-  ("log2|(Interval)|ka.functions.interval_log2", bIvLogBase (.int 2)),
-  ("log|(Interval, Number)|ka.functions.interval_log", bIvLog),
-  ("abs|(Interval)|ka.functions.interval_abs", bIvAbs),
-  ("<|(Interval, Number)|ka.functions.register_interval_cmp.<locals>.interval_num['<']", bIvCmp "<" .intervalNum),
-  ("<|(Number, Interval)|ka.functions.register_interval_cmp.<locals>.num_interval['<']", bIvCmp "<" .numInterval),
-  ("<|(Interval, Interval)|ka.functions.register_interval_cmp.<locals>.interval_interval['<']", bIvCmp "<" .intervalInterval),
-  ("<=|(Interval, Number)|ka.functions.register_interval_cmp.<locals>.interval_num['<=']", bIvCmp "<=" .intervalNum),
-  ("<=|(Number, Interval)|ka.functions.register_interval_cmp.<locals>.num_interval['<=']", bIvCmp "<=" .numInterval),
-  ("<=|(Interval, Interval)|ka.functions.register_interval_cmp.<locals>.interval_interval['<=']", bIvCmp "<=" .intervalInterval),
-  (">|(Interval, Number)|ka.functions.register_interval_cmp.<locals>.swap.<locals>.swapped_f[ka.functions.register_interval_cmp.<locals>.num_interval['<']]", bRev (bIvCmp "<" .numInterval)),
-  (">|(Number, Interval)|ka.functions.register_interval_cmp.<locals>.swap.<locals>.swapped_f[ka.functions.register_interval_cmp.<locals>.interval_num['<']]", bRev (bIvCmp "<" .intervalNum)),
-  (">|(Interval, Interval)|ka.functions.register_interval_cmp.<locals>.swap.<locals>.swapped_f[ka.functions.register_interval_cmp.<locals>.interval_interval['<']]", bRev (bIvCmp "<" .intervalInterval)),
-  (">=|(Interval, Number)|ka.functions.register_interval_cmp.<locals>.swap.<locals>.swapped_f[ka.functions.register_interval_cmp.<locals>.num_interval['<=']]", bRev (bIvCmp "<=" .numInterval)),
-  (">=|(Number, Interval)|ka.functions.register_interval_cmp.<locals>.swap.<locals>.swapped_f[ka.functions.register_interval_cmp.<locals>.interval_num['<=']]", bRev (bIvCmp "<=" .intervalNum)),
-  (">=|(Interval, Interval)|ka.functions.register_interval_cmp.<locals>.swap.<locals>.swapped_f[ka.functions.register_interval_cmp.<locals>.interval_interval['<=']]", bRev (bIvCmp "<=" .intervalInterval)),
-  ("==|(Interval, Interval)|ka.functions.interval_eq", bIvEq false),
-  ("!=|(Interval, Interval)|ka.functions.interval_neq", bIvEq true),
-  ("lower|(Interval)|ka.types.interval_get_lower", bIvLower),
-  ("upper|(Interval)|ka.types.interval_get_upper", bIvUpper),
-  ("min|(Interval, Number)|ka.functions.interval_min", bIvMin),
-  ("min|(Number, Interval)|ka.functions.register_commutative_op.<locals>.reverse_f[ka.functions.interval_min]", bRev bIvMin),
-  ("max|(Interval, Number)|ka.functions.interval_max", bIvMax),
-  ("max|(Number, Interval)|ka.functions.register_commutative_op.<locals>.reverse_f[ka.functions.interval_max]", bRev bIvMax),
-  ("size|(Interval)|ka.functions.interval_size", bIvSize),
-  ("±|(Number, Number)|ka.functions.interval_plusminus", bPlusMinus),
-  ("tol|(Number, Number)|ka.functions.interval_plusminus", bPlusMinus)]
+  ("+|(Interval, Number)|ka.functions.make_interval_with_num_op.<locals>.op['+']", .ivNumOp "+"),
+  ("+|(Number, Interval)|ka.functions.register_commutative_op.<locals>.reverse_f[ka.functions.make_interval_with_num_op.<locals>.op['+']]", .rev (.ivNumOp "+")),
+  ("*|(Interval, Number)|ka.functions.make_interval_with_num_op.<locals>.op['*']", .ivNumOp "*"),
+  ("*|(Number, Interval)|ka.functions.register_commutative_op.<locals>.reverse_f[ka.functions.make_interval_with_num_op.<locals>.op['*']]", .rev (.ivNumOp "*")),
+  ("-|(Interval, Number)|ka.functions.make_interval_with_num_op.<locals>.op['-']", .ivNumOp "-"),
+  ("/|(Interval, Number)|ka.functions.make_interval_with_num_op.<locals>.op['/']", .ivNumOp "/"),
+  ("interval|(Number, Number)|ka.functions.make_interval", .makeInterval),
+  ("contains|(Interval, Number)|ka.functions.interval_contains", .ivContains),
+  ("in|(Number, Interval)|ka.functions.in_interval", .inInterval),
+  ("^|(Interval, Number)|ka.functions.interval_to_power", .ivPow),
+  ("+|(Interval)|ka.functions.<lambda:register_function(lambda x: x, \"+\", (Interval,))>", .ident),
+  ("-|(Interval)|ka.functions.interval_flip", .ivFlip),
+  ("sqrt|(Interval)|ka.functions.interval_sqrt", .ivSqrt),
+  ("ln|(Interval)|ka.functions.interval_ln", .ivLogFixed .e),
+  ("log10|(Interval)|ka.functions.interval_log10", .ivLogFixed .ten),
+  ("log2|(Interval)|ka.functions.interval_log2", .ivLogFixed .two),
+  ("log|(Interval, Number)|ka.functions.interval_log", .ivLog),
+  ("abs|(Interval)|ka.functions.interval_abs", .ivAbs),
+  ("<|(Interval, Number)|ka.functions.register_interval_cmp.<locals>.interval_num['<']", .ivCmp "<" .intervalNum),
+  ("<|(Number, Interval)|ka.functions.register_interval_cmp.<locals>.num_interval['<']", .ivCmp "<" .numInterval),
+  ("<|(Interval, Interval)|ka.functions.register_interval_cmp.<locals>.interval_interval['<']", .ivCmp "<" .intervalInterval),
+  ("<=|(Interval, Number)|ka.functions.register_interval_cmp.<locals>.interval_num['<=']", .ivCmp "<=" .intervalNum),
+  ("<=|(Number, Interval)|ka.functions.register_interval_cmp.<locals>.num_interval['<=']", .ivCmp "<=" .numInterval),
+  ("<=|(Interval, Interval)|ka.functions.register_interval_cmp.<locals>.interval_interval['<=']", .ivCmp "<=" .intervalInterval),
+  (">|(Interval, Number)|ka.functions.register_interval_cmp.<locals>.swap.<locals>.swapped_f[ka.functions.register_interval_cmp.<locals>.num_interval['<']]", .rev (.ivCmp "<" .numInterval)),
+  (">|(Number, Interval)|ka.functions.register_interval_cmp.<locals>.swap.<locals>.swapped_f[ka.functions.register_interval_cmp.<locals>.interval_num['<']]", .rev (.ivCmp "<" .intervalNum)),
+  (">|(Interval, Interval)|ka.functions.register_interval_cmp.<locals>.swap.<locals>.swapped_f[ka.functions.register_interval_cmp.<locals>.interval_interval['<']]", .rev (.ivCmp "<" .intervalInterval)),
+  (">=|(Interval, Number)|ka.functions.register_interval_cmp.<locals>.swap.<locals>.swapped_f[ka.functions.register_interval_cmp.<locals>.num_interval['<=']]", .rev (.ivCmp "<=" .numInterval)),
+  (">=|(Number, Interval)|ka.functions.register_interval_cmp.<locals>.swap.<locals>.swapped_f[ka.functions.register_interval_cmp.<locals>.interval_num['<=']]", .rev (.ivCmp "<=" .intervalNum)),
+  (">=|(Interval, Interval)|ka.functions.register_interval_cmp.<locals>.swap.<locals>.swapped_f[ka.functions.register_interval_cmp.<locals>.interval_interval['<=']]", .rev (.ivCmp "<=" .intervalInterval)),
+  ("==|(Interval, Interval)|ka.functions.interval_eq", .ivEq false),
+  ("!=|(Interval, Interval)|ka.functions.interval_neq", .ivEq true),
+  ("lower|(Interval)|ka.types.interval_get_lower", .ivLower),
+  ("upper|(Interval)|ka.types.interval_get_upper", .ivUpper),
+  ("min|(Interval, Number)|ka.functions.interval_min", .ivMin),
+  ("min|(Number, Interval)|ka.functions.register_commutative_op.<locals>.reverse_f[ka.functions.interval_min]", .rev .ivMin),
+  ("max|(Interval, Number)|ka.functions.interval_max", .ivMax),
+  ("max|(Number, Interval)|ka.functions.register_commutative_op.<locals>.reverse_f[ka.functions.interval_max]", .rev .ivMax),
+  ("size|(Interval)|ka.functions.interval_size", .ivSize),
+  ("±|(Number, Number)|ka.functions.interval_plusminus", .plusMinus),
+  ("tol|(Number, Number)|ka.functions.interval_plusminus", .plusMinus)]
 
 /-- the body registered under an implementation descriptor -/
 def implBody (rec : Disp) (desc : String) : Option (List Val → R Val) :=
-  (implTable.lookup desc).map (fun b => b rec)
+  (implTable.lookup desc).map (fun c => c.run rec)
 
 /-! ### dispatch -/
 
@@ -745,13 +811,22 @@ def derr : Dispatch.DErr → Err
   | .unknownKeyword => .unknownKw
   | .badKeyword => .badKw
 
-/-- `dispatch` up to the call, over the generated registry: positional types and vararg type of
-    the chosen signature and the descriptor of its implementation -/
-def resolveDesc (name : String) (classes : List Nat) (kw : List (Nat × Nat)) :
-    Except Dispatch.DErr (List Nat × Option Nat × String) :=
+/-- what `dispatch` is about to call: positional types and vararg type of the chosen signature, the
+    descriptor of its implementation, and the modelled body registered under that descriptor -/
+structure Chosen where
+  pos : List Nat
+  vararg : Option Nat
+  desc : String
+  code : Option BodyCode
+deriving DecidableEq, Repr
+
+/-- `dispatch` up to the call, over the generated registry -/
+def resolveDesc (name : String) (classes : List Nat) (kw : List (Nat × Nat)) : Except Dispatch.DErr Chosen :=
   match Dispatch.resolve Gen.Registry.inst Gen.Registry.sub Gen.Registry.registry name classes kw with
   | .error e => .error e
-  | .ok s => .ok (s.pos, s.vararg, (Gen.Registry.implNames[s.impl]?).getD "?")
+  | .ok s =>
+    let desc := (Gen.Registry.implNames[s.impl]?).getD "?"
+    .ok ⟨s.pos, s.vararg, desc, implTable.lookup desc⟩
 
 /-- `coerce_to(x, t)`: a lazy combinatoric is resolved for a parameter declared exactly `Number` -/
 def coerceTo (x : Val) (t : Nat) : R Val :=
@@ -793,13 +868,11 @@ def dispatchV : Nat → String → List Val → List (String × Val) → R Val
   | n + 1, name, args, kw =>
     match resolveDesc name (args.map classOf) (kwIds kw) with
     | .error e => raise (derr e)
-    | .ok (pos, va, desc) =>
-      match implBody (fun nm as => dispatchV n nm as []) desc with
-      | Option.none => .error (.unmodelled ("function " ++ shortName desc))
-      | some body => do
-        let cargs ← coerceArgs pos va args
-        let r ← body cargs
-        simplifyVal r
+    | .ok ⟨_, _, desc, Option.none⟩ => .error (.unmodelled ("function " ++ shortName desc))
+    | .ok ⟨pos, va, _, some code⟩ => do
+      let cargs ← coerceArgs pos va args
+      let r ← code.run (fun nm as => dispatchV n nm as []) cargs
+      simplifyVal r
 
 /-- nesting depth of `dispatch` supplied at top level (the code never nests deeper than 6) -/
 def dispatchFuel : Nat := 10
